@@ -39,7 +39,9 @@ def k19_match(ctx, pid: str):
         I.path.effects.append(("get-regex", args[0]))
         return AObj(rx_cls, {}, name="rx")
 
-    hooks = {"moclo.regex.DNARegex.search": search_hook, "moclo.core._structured.StructuredRecord._get_regex": get_regex_hook}
+    from .roles import regex_getter
+
+    hooks = {"moclo.regex.DNARegex.search": search_hook, regex_getter(p).qualname: get_regex_hook}
 
     for topo in (None, "circular", "Circular", "linear"):
         def make_args(I, topo=topo):
@@ -76,7 +78,8 @@ def k19_match(ctx, pid: str):
     # the per-class pattern is compiled from the class's own structure()
     gr = p.get_func("moclo.core._structured.StructuredRecord._get_regex")
     srcs = [p.modules[gr.module.name].segment(n) for n in ast.walk(gr.node) if isinstance(n, ast.Call) and isinstance(n.func, ast.Name) and n.func.id == "DNARegex"]
-    ok = bool(srcs) and all(re.sub(r"\s", "", s) in ("DNARegex(cls.structure())",) for s in srcs)
+    cls_name = gr.node.args.args[0].arg if gr.node.args.args else "cls"
+    ok = bool(srcs) and all(re.sub(r"\s", "", s) in ("DNARegex(%s.structure())" % cls_name,) for s in srcs)
     ctx.report.ob("K19.own-structure", gr.qualname, ok, "the pattern must be compiled from cls.structure(): %r" % (srcs,), gr.where())
 
 
@@ -93,6 +96,10 @@ def k21_match_overrides(ctx, pid: str):
     if not isinstance(base_match, FuncInfo):
         raise AnalysisError("anchor vanished: StructuredRecord._match")
     rx_cls = p.get_class("moclo.regex.DNARegex")
+
+    from .roles import regex_getter as _rg
+
+    getter_name = _rg(p).name
 
     # which methods take part in the evaluation of _match: _match itself and whatever it reaches through self.<name>
     def reached(ci):
@@ -111,7 +118,7 @@ def k21_match_overrides(ctx, pid: str):
                         for n in ast.walk(raw.node):
                             if isinstance(n, ast.Attribute) and isinstance(n.value, ast.Name) and n.value.id == me and n.attr not in names:
                                 for c2 in p.mro(ci):
-                                    if isinstance(c2, ClassInfo) and isinstance(c2.attrs.get(n.attr), FuncInfo) and n.attr not in ("_get_regex", "structure"):
+                                    if isinstance(c2, ClassInfo) and isinstance(c2.attrs.get(n.attr), FuncInfo) and n.attr not in (getter_name, "structure"):
                                         todo.append(n.attr)
                                         break
         return sorted(names)
@@ -164,7 +171,9 @@ def k21_match_overrides(ctx, pid: str):
 
         hooks = dict(FRAG_HOOKS)
         hooks["moclo.regex.DNARegex.search"] = search_hook
-        hooks["moclo.core._structured.StructuredRecord._get_regex"] = get_regex_hook
+        from .roles import regex_getter
+
+        hooks[regex_getter(p).qualname] = get_regex_hook
 
         def make_args(I, owner=owner):
             rec = circ_record("W:x", ident="x")
@@ -355,15 +364,16 @@ def assembly_layering_rule(ctx, rule: str):
     what the walk uses as long as the walk does not redo it by hand."""
     p = ctx.program
     r = ctx.report
-    from .roles import layer_functions
+    from .roles import layer_functions, regex_getter
 
+    getter_name = regex_getter(p).name
     n = 0
     for fi in layer_functions(p):
         m = fi.module
         mine = []
         for node in ast.walk(fi.node):
             why = None
-            if isinstance(node, ast.Attribute) and node.attr in ("_match", "_get_regex", "structure"):
+            if isinstance(node, ast.Attribute) and node.attr in ("_match", getter_name, "structure"):
                 why = "reads the private `%s` of a module or vector" % node.attr
             elif isinstance(node, ast.Call) and isinstance(node.func, ast.Attribute) and node.func.attr in ("span", "group") and not (
                     isinstance(node.func.value, ast.Name) and node.func.value.id in ("match", "m")):
@@ -381,6 +391,33 @@ def assembly_layering_rule(ctx, rule: str):
              "the assembly %s (`%s`): fragments and overhangs must come from the accessors" % (mine[0][1], re.sub(r"\s+", " ", m.segment(mine[0][0]) or "")[:80]) if mine else "",
              "%s:%d" % (m.relpath, mine[0][0].lineno if mine else fi.node.lineno))
     r.floor(rule, 4)
+
+
+def _returns_record(raw: FuncInfo) -> bool:
+    """some return value of the function is built by a record operation (rotation, slice, record constructor,
+    add_as_source): a record that callers go on to modify.  A memoised structure match is not."""
+    rec_calls = {"add_as_source", "CircularRecord", "SeqRecord", "reverse_complement", "target_sequence", "placeholder_sequence"}
+    names = {}
+    for n in ast.walk(raw.node):
+        if isinstance(n, ast.Assign) and len(n.targets) == 1 and isinstance(n.targets[0], ast.Name):
+            names.setdefault(n.targets[0].id, []).append(n.value)
+
+    def recordish(e, depth=3) -> bool:
+        for x in ast.walk(e):
+            if isinstance(x, ast.BinOp) and isinstance(x.op, (ast.LShift, ast.RShift)):
+                return True
+            if isinstance(x, ast.Subscript) and isinstance(x.slice, ast.Slice):
+                return True
+            if isinstance(x, ast.Call):
+                f = x.func
+                nm = f.attr if isinstance(f, ast.Attribute) else f.id if isinstance(f, ast.Name) else None
+                if nm in rec_calls:
+                    return True
+            if isinstance(x, ast.Name) and depth > 0 and any(recordish(v, depth - 1) for v in names.get(x.id, [])):
+                return True
+        return False
+
+    return any(isinstance(n, ast.Return) and n.value is not None and recordish(n.value) for n in ast.walk(raw.node))
 
 
 def fragment_cache_rule(ctx, rule: str):
@@ -405,7 +442,7 @@ def fragment_cache_rule(ctx, rule: str):
                 memo = [d for d in raw.decorators if d in ("cached_property", "lru_cache", "cache", "memoize", "memoized")]
                 if nm in names or nm == "_match":
                     n += 1
-                if nm != "_match" and memo:
+                if nm != "_match" and memo and (nm in names or _returns_record(raw)):
                     r.ob(rule, raw.qualname, False,
                          "%s is memoised (%s): a record it returns is shared between calls although its callers modify it" % (raw.qualname, ", ".join(memo)), raw.where())
                 if nm in names:
@@ -467,9 +504,25 @@ def warning_filter_rule(ctx, rule: str):
     ok = len(calls) == 1
     if ok:
         c = calls[0]
-        a0 = c.args[0] if c.args else next((k.value for k in c.keywords if k.arg == "action"), None)
-        a1 = c.args[1] if len(c.args) > 1 else next((k.value for k in c.keywords if k.arg == "category"), None)
-        ok = isinstance(a0, ast.Name) and a0.id == "action" and isinstance(a1, ast.Name) and a1.id == "category"
+        # positional arguments, a *name bound once to a tuple (or to a tuple-like constructor call) spelled out
+        pos = []
+        for a in c.args:
+            if isinstance(a, ast.Starred) and isinstance(a.value, ast.Name):
+                defs = [x.value for x in ast.walk(cw.node) if isinstance(x, ast.Assign) and len(x.targets) == 1
+                        and isinstance(x.targets[0], ast.Name) and x.targets[0].id == a.value.id]
+                if len(defs) == 1 and isinstance(defs[0], (ast.Tuple, ast.List)):
+                    pos.extend(defs[0].elts)
+                    continue
+                if len(defs) == 1 and isinstance(defs[0], ast.Call) and not defs[0].keywords and all(isinstance(z, ast.Name) for z in defs[0].args):
+                    pos.extend(defs[0].args)
+                    continue
+                pos.append(a)
+            else:
+                pos.append(a)
+        a0 = pos[0] if pos else next((k.value for k in c.keywords if k.arg == "action"), None)
+        a1 = pos[1] if len(pos) > 1 else next((k.value for k in c.keywords if k.arg == "category"), None)
+        params = [x.arg for x in cw.node.args.args]
+        ok = isinstance(a0, ast.Name) and a0.id == params[0] and isinstance(a1, ast.Name) and len(params) > 1 and a1.id == params[1]
     r.ob(rule, "moclo._utils.catch_warnings#forwarding", ok,
          "the catch_warnings helper must install exactly the filter it was asked for (action, category): `%s`" % (re.sub(r"\s+", " ", cw.module.segment(calls[0]) or "") if calls else "no filter call"), cw.where())
     r.floor(rule, 1)
@@ -528,13 +581,14 @@ def text_consumers_rule(ctx, rule: str):
 
     memo = {}
 
-    def text_names(fi, depth=2):
+    def text_names(fi, depth=2, seed=frozenset()):
         """names of fi holding text derived from the target: assigned from str(...), from a helper returning such a
-        text, or derived from one of those by + * slicing upper/lower"""
-        if fi.qualname in memo:
-            return memo[fi.qualname]
-        memo[fi.qualname] = (set(), False)
-        text = set()
+        text, parameters that receive it (seed), or derived from one of those by + * slicing upper/lower"""
+        mk = (fi.qualname, frozenset(seed))
+        if mk in memo:
+            return memo[mk]
+        memo[mk] = (set(seed), False)
+        text = set(seed)
 
         def texty(v):
             if isinstance(v, ast.Call) and isinstance(v.func, ast.Name) and v.func.id == "str":
@@ -567,8 +621,8 @@ def text_consumers_rule(ctx, rule: str):
                                 text.add(t.id)
                                 changed = True
         returns_text = any(isinstance(n, ast.Return) and n.value is not None and texty(n.value) for n in ast.walk(fi.node))
-        memo[fi.qualname] = (text, returns_text)
-        return memo[fi.qualname]
+        memo[mk] = (text, returns_text)
+        return memo[mk]
 
     text_names(entry)
     funcs = [p.get_func(q) if q != entry.qualname else entry for q in []]
@@ -578,7 +632,7 @@ def text_consumers_rule(ctx, rule: str):
             g = helper_of(entry, n)
             if g is not None and text_names(g)[1] and g not in todo:
                 todo.append(g)
-    if not any(memo[f.qualname][0] for f in todo):
+    if not any(text_names(f)[0] for f in todo):
         raise AnalysisError("%s: cannot find the text derived from the target" % entry.where())
     n_uses = 0
     seeded: Dict[str, set] = {}
@@ -587,20 +641,7 @@ def text_consumers_rule(ctx, rule: str):
         fi = todo[k_todo]
         k_todo += 1
         fn = fi.node
-        text = set(memo.get(fi.qualname, (set(), False))[0]) | seeded.get(fi.qualname, set())
-        if seeded.get(fi.qualname):
-            # names derived from a text parameter
-            changed = True
-            while changed:
-                changed = False
-                for n in ast.walk(fn):
-                    if isinstance(n, (ast.Assign, ast.AugAssign)):
-                        tg = n.targets if isinstance(n, ast.Assign) else [n.target]
-                        if any(isinstance(x, ast.Name) and x.id in text for x in ast.walk(n.value)) and not isinstance(n.value, ast.Call):
-                            for t in tg:
-                                if isinstance(t, ast.Name) and t.id not in text:
-                                    text.add(t.id)
-                                    changed = True
+        text = set(text_names(fi, 2, frozenset(seeded.get(fi.qualname, set())))[0])
         parents = {}
         for node in ast.walk(fn):
             for ch in ast.iter_child_nodes(node):
@@ -751,8 +792,14 @@ def characterize_rule(ctx, rule: str):
     def isabstract_hook(I, f, args, kwargs):
         return I.path.choose("isabstract", [False, True])
 
+    tolerance = {"seen": 0, "tolerant": 0}
+
     def is_valid_hook(I, f, args, kwargs):
-        return I.path.choose("valid %s" % args[0].name, [True, False])
+        v = I.path.choose("valid %s" % args[0].name, [True, False, "abstract"])
+        if v == "abstract":
+            # the candidate class cannot be typed at all (no signature / no cutter): its structure() raises
+            raise RaiseSig(AExc("NotImplementedError", ["no signature defined"], {}))
+        return v
 
     hooks = {"class_getattr": class_getattr, "instantiate": instantiate, "moclo._utils.isabstract": isabstract_hook,
              "moclo.core._structured.StructuredRecord.is_valid": is_valid_hook}
@@ -766,6 +813,14 @@ def characterize_rule(ctx, rule: str):
     def post(I, o):
         name = fi.qualname
         ch = dict(o.path.choices)
+        if "abstract" in ch.values():
+            # how characterize copes with an abstract candidate is only summarised (used by the class-table obligation below)
+            first = [t for t, v in o.path.choices if v == "abstract"][0]
+            later = [t for t, v in o.path.choices if t.startswith("valid ")]
+            tolerance["seen"] += 1
+            if later.index(first) < len(later) - 1 or o.kind == "return":
+                tolerance["tolerant"] += 1
+            return []
         abstract = ch.get("isabstract")
         order = [S1.name, S2.name] + ([] if abstract else [ap.name])
         out = []
@@ -803,6 +858,25 @@ def characterize_rule(ctx, rule: str):
     emit(ctx, run_paths(ctx, fi, make_args, [N - 1], hooks=hooks, post=post), fi.where())
     ctx.report.floor(rule + ".validated-return", 6)
     ctx.report.floor(rule + ".runtime-error", 2)
+    # the candidates of every kit part base, from the class table: unless characterize() steps over candidates that cannot
+    # be typed, an abstract direct subclass aborts the scan before the candidates listed after it are tried
+    skips_abstract = tolerance["seen"] > 0 and tolerance["tolerant"] == tolerance["seen"]
+    inv = {k.ci.qualname: k for k in ctx.inventory}
+    n = 0
+    for base in p.all_classes():
+        if base.synthetic or base is root or not p.is_subclass(base, root) or not base.module.name.startswith("moclo.kits."):
+            continue
+        subs = [c for c in p.all_classes() if not c.synthetic and base in c.bases]
+        if not subs:
+            continue
+        n += 1
+        bad = [c for c in subs if not (inv.get(c.qualname) is not None and inv[c.qualname].concrete)]
+        ctx.report.ob(rule + ".candidates-typable", base.qualname, skips_abstract or not bad,
+                      "%s.characterize() tries its direct subclasses in definition order; %s cannot be typed (%s), so the scan ends with its "
+                      "NotImplementedError before the %d candidate(s) defined after it are tried"
+                      % (base.name, ", ".join(c.name for c in bad), "; ".join((inv[c.qualname].abstract_reason if inv.get(c.qualname) else "not a structured class") for c in bad),
+                         len(subs) - 1 - subs.index(bad[0]) if bad else 0), bad[0].where() if bad else base.where())
+    ctx.report.floor(rule + ".candidates-typable", 4)
 
 
 # ---------------------------------------------------------------------------
